@@ -142,4 +142,108 @@ theorem outbound_https_aux (srv : Nat → Req → Option Resp) (first : Req) :
   · intro r hr
     simp [strictDo, hf] at hr
 
+theorem isReserved_ok (tlds l2s : List Bytes) (h : Bytes) : ∃ b, isReserved tlds l2s h = .ok b := by
+  unfold isReserved
+  simp only
+  cases hl : (splitOn cDot (lower h)).getLast? with
+  | none => exact absurd (List.getLast?_eq_none_iff.mp hl) (splitOn_ne_nil _ _)
+  | some tld =>
+    simp only
+    split
+    · exact ⟨_, rfl⟩
+    · split <;> exact ⟨_, rfl⟩
+
+/-- strict `ServerURL` as a decision list over the parsed URL -/
+theorem serverURL_strict_cases (tlds l2s : List Bytes) (url : Bytes) (u : URL) (hp : parseURL url = .ok u)
+    (hne : url ≠ []) (hsc : u.scheme ≠ []) (hh : hostname u.host ≠ []) (b : Bool)
+    (hr : isReserved tlds l2s (hostname u.host) = .ok b) :
+    serverURL tlds l2s url true =
+      if u.scheme ≠ sHttpsB then .err "url:scheme" else
+      if isIP (hostname u.host) then .err "url:ip" else
+      if b then .err "url:reserved" else .ok u.host := by
+  unfold serverURL parsePublicURL parsePublicURLWithScheme
+  simp only [if_neg hne, Bool.not_true, Bool.false_eq_true, if_false, hp, hr]
+  have e1 : (decide (u.scheme = []) || decide (hostname u.host = [])) = false := by simp [hsc, hh]
+  simp only [e1, Bool.false_eq_true, if_false]
+  by_cases hs : u.scheme = sHttpsB
+  · have e2 : (![sHttpsB].isEmpty && ![sHttpsB].contains u.scheme) = false := by simp [hs]
+    simp only [e2, Bool.false_eq_true, if_false, hs, ne_eq, not_true_eq_false]
+    cases hip : isIP (hostname u.host) with
+    | true => simp
+    | false => cases b <;> simp
+  · have e2 : (![sHttpsB].isEmpty && ![sHttpsB].contains u.scheme) = true := by simp [hs]
+    simp [e2, hs]
+/-- the strict-mode start decision of a well-formed configuration, as a decision list over the seven insecure settings -/
+theorem start_strict_formula (tlds l2s : List Bytes) (c : Config) (hs : c.strict = true)
+    (hf : c.cliFlags.any isSecretFlag = false) (hk : c.movedKey = false) (hc : c.cryptoStorage ≠ .invalid)
+    (hm : c.nuts = true ∨ c.web = true)
+    (hu : c.url ≠ [] ∧ ∃ u, parseURL c.url = .ok u ∧ u.scheme ≠ [] ∧ hostname u.host ≠ []) :
+    start tlds l2s c =
+      if hasInsecure tlds l2s .sqlImplicit c then .refuse "storage" "sql-implicit" else
+      if hasInsecure tlds l2s .cryptoImplicit c then .refuse "crypto" "crypto-implicit" else
+      if hasInsecure tlds l2s .urlNotHttps c then .refuse "vdr" "url:scheme" else
+      if hasInsecure tlds l2s .urlIP c then .refuse "vdr" "url:ip" else
+      if hasInsecure tlds l2s .urlReserved c then .refuse "vdr" "url:reserved" else
+      if hasInsecure tlds l2s .tlsOff c then .refuse "network" "tls-off" else
+      if hasInsecure tlds l2s .irmaNonProduction c then .refuse "auth" "irma-scheme" else
+      .ok { dummyMeans := false, unlistedRemoteContexts := false, clientStrict := true } := by
+  obtain ⟨hne, u, hp, hsc, hh⟩ := hu
+  obtain ⟨b, hr⟩ := isReserved_ok tlds l2s (hostname u.host)
+  have hsu := serverURL_strict_cases tlds l2s c.url u hp hne hsc hh b hr
+  have hload : load c = none := by simp [load, hf, hk]
+  have k1 : hasInsecure tlds l2s .urlNotHttps c = decide (u.scheme ≠ sHttpsB) := by simp [hasInsecure, hp]
+  have k2 : hasInsecure tlds l2s .urlIP c = isIP (hostname u.host) := by simp [hasInsecure, hp]
+  have k3 : hasInsecure tlds l2s .urlReserved c = b := by simp [hasInsecure, hp, hr]
+  have k4 : hasInsecure tlds l2s .tlsOff c = (c.nuts && !c.tls) := rfl
+  have k5 : hasInsecure tlds l2s .cryptoImplicit c = decide (c.cryptoStorage = .implicit) := rfl
+  have k6 : hasInsecure tlds l2s .sqlImplicit c = !c.sqlExplicit := rfl
+  have k7 : hasInsecure tlds l2s .irmaNonProduction c = !c.irmaPbdf := rfl
+  rw [k1, k2, k3, k4, k5, k6, k7]
+  unfold start
+  rw [hload]
+  simp only
+  cases hsql : c.sqlExplicit with
+  | false => simp [storageConfigure, hsql, hs]
+  | true =>
+    have e1 : storageConfigure c = none := by simp [storageConfigure, hsql]
+    simp only [e1, Bool.not_true, Bool.false_eq_true, if_false]
+    cases hcs : c.cryptoStorage with
+    | invalid => exact absurd hcs hc
+    | implicit => simp [cryptoConfigure, hcs, hs]
+    | explicit =>
+      have e2 : cryptoConfigure c = none := by simp [cryptoConfigure, hcs]
+      simp only [e2, reduceCtorEq, decide_false, Bool.false_eq_true, if_false]
+      unfold vdrConfigure
+      rw [hs, hsu]
+      by_cases hsch : u.scheme = sHttpsB
+      · simp only [hsch, ne_eq, not_true_eq_false, if_false, decide_false, Bool.false_eq_true]
+        cases hip : isIP (hostname u.host) with
+        | true => simp
+        | false =>
+          simp only [Bool.false_eq_true, if_false]
+          cases b with
+          | true => simp
+          | false =>
+            have e3 : (!c.nuts && !c.web) = false := by rcases hm with hm | hm <;> simp [hm]
+            simp only [Bool.false_eq_true, if_false, e3]
+            cases hn : c.nuts with
+            | false => cases hi : c.irmaPbdf <;> simp [networkConfigure, authConfigure, hn, hi, hs]
+            | true =>
+              cases ht : c.tls with
+              | false => simp [networkConfigure, hn, ht, hs]
+              | true => cases hi : c.irmaPbdf <;> simp [networkConfigure, authConfigure, hn, ht, hi, hs]
+      · simp [hsch]
+
+theorem strict_reason_aux (tlds l2s : List Bytes) (c : Config) (hs : c.strict = true) (i : Insecure)
+    (hi : hasInsecure tlds l2s i c = true) (honly : ∀ j, j ≠ i → hasInsecure tlds l2s j c = false)
+    (hf : c.cliFlags.any isSecretFlag = false) (hk : c.movedKey = false) (hc : c.cryptoStorage ≠ .invalid)
+    (hm : c.nuts = true ∨ c.web = true)
+    (hu : c.url ≠ [] ∧ ∃ u, parseURL c.url = .ok u ∧ u.scheme ≠ [] ∧ hostname u.host ≠ []) :
+    ∃ e, start tlds l2s c = .refuse e (reasonOf i) := by
+  rw [start_strict_formula tlds l2s c hs hf hk hc hm hu]
+  cases i <;>
+    simp [hi, honly, reasonOf,
+      honly .sqlImplicit, honly .cryptoImplicit, honly .urlNotHttps, honly .urlIP, honly .urlReserved, honly .tlsOff,
+      honly .irmaNonProduction]
+
 end Nuts.C20
